@@ -455,6 +455,10 @@ def check(prop, tier, jobs, only=None, limit=None, cap=None, verbose=False):
         print('HARNESS-ERROR', e[:800])
     for u in unconfirmed[:5]:
         print('UNCONFIRMED', json.dumps(u, default=str)[:500])
+    if verbose:
+        slow = sorted((r for r in results if r), key=lambda r: -r['wall_s'])[:8]
+        for r in slow:
+            print(f"SLOW {r['wall_s']:.1f}s paths={r['paths']} {r['harness']} {r['params']} {r['inconclusive'][:1]}")
     if timed_out:
         print(f'INCONCLUSIVE property={prop} wall-clock cap reached, {not_run} instances not run')
     if inconclusive_notes and verbose:
